@@ -48,6 +48,20 @@ def select(singular: str, plural: Optional[str], count: Any, count_given: bool) 
     return (plural if plural_chosen else singular), plural_chosen
 
 
+def count_conversion_matters(count: Any) -> bool:
+    """True iff ``count`` is a numeric string whose integer conversion selects another form
+    than the raw string does (``"1"``).  docs/optional_filters.md calls the count "a number
+    used to determine if the singular or plural message should be used" and says nothing about
+    strings, so neither reading is imposed for such a count."""
+    if not isinstance(count, str):
+        return False
+    try:
+        n = int(count)
+    except ValueError:
+        return False
+    return NULL.ngettext("singular", "plural", n) != NULL.ngettext("singular", "plural", count)
+
+
 def stringify(v: Any) -> str:
     """String representation of the (str / int) values this check supplies."""
     assert isinstance(v, (str, int)) and not isinstance(v, bool)
